@@ -378,6 +378,15 @@ class DCtx:
         pool = ["9999", "29999", "39999", "49999", "59999"]
         pool = pool[SEED % len(pool):] + pool[:SEED % len(pool)]
         self.unknown = next(t for t in pool if t not in d.by_tag)
+        # first top-level and first nested position of every plain field (walk order of the dictionary)
+        self.first_pos = set()
+        seen = set()
+        for mi, (_n, _t, mem) in enumerate(self.msgs):
+            for p, m, level, _i in positions(mem):
+                k = (m["tag"], level > 0)
+                if m["k"] == "f" and k not in seen:
+                    seen.add(k)
+                    self.first_pos.add((mi, p))
 
     def field_member(self, tag):
         n, ty, en = self.d.by_tag[tag]
@@ -482,6 +491,8 @@ def valid_instances(dc, mi, quick_subset, thorough=True):
                 build(members, False, "min", target=p)
         if m["k"] != "f":
             continue
+        if not thorough and (mi, p) not in dc.first_pos:
+            continue  # quick tier: value variants at the first top-level / nested position of each field
         base = None
         if m["en"]:
             base = build(members, False, "min", target=p)
@@ -824,12 +835,12 @@ def order_corpus(dc, size):
 
 
 def _order_work(item):
-    did, perm = item
+    did, perm, size = item
     from asyncfix.protocol.schema import FIXSchema
 
     dc = get_dc(did, REPO)
-    corpus = ORDER_CORPUS[did]
-    base = ORDER_BASE[did]
+    corpus = ORDER_CORPUS[(did, size)]
+    base = ORDER_BASE[(did, size)]
     res = {"calls": 0, "viol": [], "vsigs": {}, "parse": "ok"}
     try:
         schema = FIXSchema(ET.ElementTree(permuted_root(dc.root, perm)))
@@ -956,32 +967,46 @@ def run(ctx):
     # ---- declaration order
     order_items = []
     nperm = {}
+    ncorpus = {}
     for did in DICT_IDS:
         dc = DC[did]
         n = len(dc.d.component_order)
         if n < 2:
             nperm[did] = 0
             continue
-        small = did in ("SIMPLE", "SYN")
-        if did == "SIMPLE":
-            size = "all"
-        elif did == "SYN":
-            size = "medium" if ctx.quick else "all"
-        else:
-            size = "small" if ctx.quick else "medium"
-        ORDER_CORPUS[did] = order_corpus(dc, size)
-        ORDER_BASE[did] = [verdict(dc.schema, mt, tree) for mt, tree in ORDER_CORPUS[did]]
-        ctx.count(transitions=len(ORDER_CORPUS[did]), evaluations=len(ORDER_CORPUS[did]))
-        if small:
+        if did in ("SIMPLE", "SYN"):
             perms = [list(p) for p in itertools.permutations(range(n))][1:]
+            if ctx.quick and did == "SYN":
+                # quick tier: all 120 orders of the five inter-dependent components, the independent
+                # last one (CompT) stays in place; thorough: all 720
+                perms = [p for p in perms if p[-1] == n - 1]
+            plan = [(p, "all" if (did == "SIMPLE" or not ctx.quick) else "medium") for p in perms]
         else:
             perms = real_permutations(dc, ctx.quick)
+            # every order on the small corpus; in the thorough tier reversal, dependencies-first,
+            # dependencies-last and every 10th further order also on the medium corpus
+            plan = [(p, "small") for p in perms]
+            if not ctx.quick:
+                plan += [(p, "medium") for i, p in enumerate(perms) if i < 3 or i % 10 == 0]
+        for size in sorted(set(sz for _p, sz in plan)):
+            corpus = order_corpus(dc, size)
+            ORDER_CORPUS[(did, size)] = corpus
+            ORDER_BASE[(did, size)] = [verdict(dc.schema, mt, tree) for mt, tree in corpus]
+            ctx.count(transitions=len(corpus), evaluations=len(corpus))
+            ncorpus.setdefault(did, {})[size] = len(corpus)
         nperm[did] = len(perms)
-        order_items += [(did, p) for p in perms]
+        order_items += [(did, p, sz) for p, sz in plan]
+    gc.collect()
+    gc.freeze()
+    order_items.sort(key=lambda x: {"medium": 0, "all": 1, "small": 2}[x[2]] if x[0] not in ("SIMPLE", "SYN") else 3)
     ores = ctx.pmap(_order_work, order_items, chunk=1)
     parse_outcomes = set()
-    for (did, p), r in zip(order_items, ores):
-        ctx.count(states=1, transitions=r["calls"] + 1, traces=r["calls"], evaluations=r["calls"], schema_parses=1)
+    seen_orders = set()
+    for (did, p, sz), r in zip(order_items, ores):
+        if (did, tuple(p)) not in seen_orders:
+            seen_orders.add((did, tuple(p)))
+            ctx.count(states=1)
+        ctx.count(transitions=r["calls"] + 1, traces=r["calls"], evaluations=r["calls"], schema_parses=1)
         parse_outcomes.add(r["parse"])
         for v in r["viol"]:
             v = dict(v)
@@ -993,7 +1018,7 @@ def run(ctx):
                                "member_positions": sum(count_positions(m) for _n, _t, m in DC[did].msgs),
                                "components": len(DC[did].d.component_order),
                                "component_orders_tried": nperm[did],
-                               "order_corpus": len(ORDER_CORPUS.get(did, []))} for did in DICT_IDS},
+                               "order_corpus": ncorpus.get(did, {})} for did in DICT_IDS},
         "cases_per_class": dict(sorted(classes.items())),
         "tier": ctx.tier,
     }
